@@ -720,8 +720,12 @@ where
         self: &'a mut Pin<&mut Self>,
         cx: &mut Context<'_>,
     ) -> Poll<Option<Result<(), C::Error>>> {
-        while self.channel_pin_mut().poll_ready(cx)?.is_pending() {
+        if self.channel_pin_mut().poll_ready(cx)?.is_pending() {
             ready!(self.channel_pin_mut().poll_flush(cx)?);
+            // poll_ready registered the current task for wakeup when the channel may be ready
+            // again. Don't retry in the same poll: transports whose flush is independent of
+            // readiness would otherwise be busy-polled.
+            return Poll::Pending;
         }
         Poll::Ready(Some(Ok(())))
     }
